@@ -16,7 +16,8 @@ use std::time::{Duration, Instant};
 pub enum W {
     NotStarted,
     Running,
-    AtGate(&'static str),
+    /// (site, inside a critical section, gate in front of a lock acquisition)
+    AtGate(&'static str, bool, bool),
     Parked,
     Waking(Instant),
     Exited(bool),
@@ -44,6 +45,8 @@ pub struct S {
     pub granted_log: Vec<usize>,
     pub diverged: usize,
     pub max_steps: usize,
+    /// window stretching: while a worker waits at a cache gate inside a critical section, let the others run for a while
+    hold_left: Option<usize>,
 }
 pub struct Sched {
     pub s: Mutex<S>,
@@ -53,14 +56,14 @@ pub struct Sched {
 }
 
 thread_local! { static IS_WORKER: std::cell::Cell<bool> = const { std::cell::Cell::new(false) }; }
-// a worker inside a critical section must never wait at a gate: whoever is granted next would block on the mutex for ever
+// set between Locked and AfterUnlock: gates reached meanwhile are marked, see `run`
 thread_local! { static IN_CS: std::cell::Cell<bool> = const { std::cell::Cell::new(false) }; }
 
 impl Sched {
     pub fn new(nspawn: usize, seed: u64, policy: Vec<usize>, cut_at_step: Option<usize>, pct: Option<(Vec<usize>, Vec<usize>)>, stop: Arc<AtomicBool>) -> Arc<Sched> {
         Arc::new(Sched {
             s: Mutex::new(S { w: vec![W::NotStarted; nspawn], tid: HashMap::new(), granted: None, steps: 0, verdict: Verdict::Running, policy, cut_at_step,
-                              rng: seed.wrapping_mul(0x9E3779B97F4A7C15) | 1, pct, granted_log: vec![], diverged: 0, max_steps: 30_000 }),
+                              rng: seed.wrapping_mul(0x9E3779B97F4A7C15) | 1, pct, granted_log: vec![], diverged: 0, max_steps: 60_000, hold_left: None }),
             cv: Condvar::new(),
             stop,
             cache_gates: AtomicBool::new(false),
@@ -70,10 +73,11 @@ impl Sched {
         s.tid.get(&std::thread::current().id()).copied()
     }
     /// a gate: block until granted (called from worker threads only)
-    pub fn gate(&self, site: &'static str) {
+    pub fn gate(&self, site: &'static str, lock_gate: bool) {
+        let in_cs = IN_CS.with(|w| w.get());
         let mut s = self.s.lock().unwrap();
         if let Some(i) = self.me(&s) {
-            s.w[i] = W::AtGate(site);
+            s.w[i] = W::AtGate(site, in_cs, lock_gate);
             self.cv.notify_all();
             while s.granted != Some(i) {
                 s = self.cv.wait(s).unwrap();
@@ -83,8 +87,9 @@ impl Sched {
         }
     }
     pub fn cache_gate(&self, site: &'static str) {
-        if self.cache_gates.load(SeqCst) && IS_WORKER.with(|w| w.get()) && !IN_CS.with(|w| w.get()) {
-            self.gate(site)
+        // also inside a critical section: the scheduler then only grants workers that are not about to take the lock
+        if self.cache_gates.load(SeqCst) && IS_WORKER.with(|w| w.get()) {
+            self.gate(site, false)
         }
     }
     pub fn on_event(&self, e: Event) {
@@ -105,7 +110,7 @@ impl Sched {
                 s.w[worker] = W::Exited(panicked);
                 self.cv.notify_all();
             }
-            Event::BeforeLock(site) => self.gate(site),
+            Event::BeforeLock(site) => self.gate(site, true),
             Event::Locked(site, snap) => {
                 IN_CS.with(|w| w.set(true));
                 emit(json!({"ev":"locked","site":site,"ongoing":snap.ongoing,"fringe_len":snap.fringe_len,"best_lb":crate::model::num(snap.best_lb),
@@ -163,7 +168,11 @@ impl Sched {
                 s.verdict = Verdict::Done;
                 return;
             }
-            let gates: Vec<usize> = (0..s.w.len()).filter(|&i| matches!(s.w[i], W::AtGate(_))).collect();
+            let mut gates: Vec<usize> = (0..s.w.len()).filter(|&i| matches!(s.w[i], W::AtGate(..))).collect();
+            // somebody waits at a cache gate while holding the critical lock: whoever is granted must not need that lock
+            if gates.iter().any(|&i| matches!(s.w[i], W::AtGate(_, true, _))) {
+                gates.retain(|&i| matches!(s.w[i], W::AtGate(_, true, _) | W::AtGate(_, _, false)));
+            }
             if gates.is_empty() {
                 // nobody can ever call notify_all again. Observe a grace period so that a slow wake-up is never mistaken for a deadlock.
                 match grace {
@@ -210,8 +219,28 @@ impl Sched {
                     s.pct = Some((prio, changes));
                     best
                 } else {
-                    let r = Self::next_rand(&mut s);
-                    gates[(r >> 33) as usize % gates.len()]
+                    // random mode. A worker gated inside a critical section (between two cache operations of get_workload) opens a
+                    // window in which the cache may change under it: stretch that window by a random number of steps of the others.
+                    let holders: Vec<usize> = gates.iter().copied().filter(|&i| matches!(s.w[i], W::AtGate(_, true, _))).collect();
+                    let others: Vec<usize> = gates.iter().copied().filter(|i| !holders.contains(i)).collect();
+                    if !holders.is_empty() && !others.is_empty() {
+                        if s.hold_left.is_none() {
+                            let r = Self::next_rand(&mut s);
+                            s.hold_left = Some(if (r >> 40) % 3 == 0 { 0 } else { ((r >> 33) % 60) as usize });
+                        }
+                        if s.hold_left.unwrap() > 0 {
+                            s.hold_left = Some(s.hold_left.unwrap() - 1);
+                            let r = Self::next_rand(&mut s);
+                            others[(r >> 33) as usize % others.len()]
+                        } else {
+                            s.hold_left = None;
+                            holders[0]
+                        }
+                    } else {
+                        s.hold_left = None;
+                        let r = Self::next_rand(&mut s);
+                        gates[(r >> 33) as usize % gates.len()]
+                    }
                 }
             };
             s.granted_log.push(pick);
